@@ -533,3 +533,17 @@ pub(crate) struct MarketPriceOptions {
     pub(crate) allow_long_closed: bool,
     pub(crate) allow_short_closed: bool,
 }
+
+#[cfg(gmsol_verif)]
+impl Oracle {
+    /// Verification-only thin wrapper: calls `PriceMap::set` on the primary price map.
+    pub fn verif_set_primary_price(
+        &mut self,
+        token: &Pubkey,
+        price: gmsol_utils::Price,
+        is_synthetic: bool,
+        is_open: bool,
+    ) -> Result<()> {
+        self.primary.set(token, price, is_synthetic, is_open)
+    }
+}
